@@ -330,6 +330,7 @@ var (
 	xMtypeBytes           = []byte("X-Mtype")
 	errBadHTTPMsg         = errors.New("bad HTTP message")
 	errUnsupportHTTPCode  = errors.New("unsupport HTTP status code")
+	errExceedSizeLimit    = errors.New("size of HTTP message exceeds limit")
 )
 
 func (h *httproto) unpack(m erpc.Message, bb *utils.ByteBuffer) (size int, msg []byte, err error) {
@@ -345,6 +346,9 @@ func (h *httproto) unpack(m erpc.Message, bb *utils.ByteBuffer) (size int, msg [
 			msg = append(msg, '\r', '\n')
 		}
 		size += bb.Len()
+		if uint64(size) > uint64(erpc.GetReadLimit()) {
+			return 0, nil, errExceedSizeLimit
+		}
 		// blank line, to read body
 		if bb.Len() == 0 {
 			break
@@ -398,6 +402,10 @@ func (h *httproto) unpack(m erpc.Message, bb *utils.ByteBuffer) (size int, msg [
 	if bodySize <= 0 {
 		return size, msg, nil
 	}
+	// check the announced size before allocating and reading the body
+	if uint64(size) > uint64(erpc.GetReadLimit()) {
+		return 0, nil, errExceedSizeLimit
+	}
 	bb.ChangeLen(bodySize)
 	_, err = io.ReadFull(h.rw, bb.B)
 	if err != nil {
@@ -428,5 +436,8 @@ func (h *httproto) readLine(bb *utils.ByteBuffer) error {
 			return nil
 		}
 		bb.Write(oneByte)
+		if uint64(bb.Len()) > uint64(erpc.GetReadLimit()) {
+			return errExceedSizeLimit
+		}
 	}
 }
